@@ -632,3 +632,56 @@ def quiet_aldy():
         logbook.NullHandler().push_application()
     except Exception:
         pass
+
+
+def build_reported(chk, prop, proofs_file, props_file):
+    """Optional second part of the closure of a stage property (C02, C03): props/Cxx_reported.v composes the stage's proofs with the
+    enumeration loop of C05 (theories/Enum.v, proofs/EnumProofs.v, owned by the C05 check).  If C05's own files do not build, that
+    is C05's broken obligation and the composition is skipped with a note; if they build, the composition is an obligation of the
+    stage property."""
+    import fcntl, re
+    coq = COQ
+    if not os.path.exists(os.path.join(coq, props_file)) or not os.path.exists(os.path.join(coq, "proofs", "EnumProofs.v")):
+        chk.notes.append(f"[{prop}] composition with the enumeration loop ({props_file}) not present: skipped")
+        return
+    lock = open(os.path.join(coq, ".build.lock"), "w")
+    fcntl.flock(lock, fcntl.LOCK_EX)
+    try:
+        rc, out = _sh(["timeout", "1200", "make", "-j8", "proofs/EnumProofs.vo"], cwd=coq, timeout=1300)
+        if rc != 0:
+            chk.notes.append(f"[{prop}] composition with the enumeration loop skipped: proofs/EnumProofs.v (property C05) does not build")
+            return
+        rc, out = _sh(["timeout", "1500", "make", "-j8", proofs_file + "o"], cwd=coq, timeout=1600)
+        if rc != 0:
+            chk.broken.append(("obligation", "coq-build:" + proofs_file, out[-2000:]))
+            return
+        rc, out = _sh(["timeout", "600", "coqc"] + COQ_FLAGS + [props_file], cwd=coq, timeout=700)
+        open(os.path.join(coq, props_file[:-2] + ".out"), "w").write(out)
+        if rc != 0:
+            chk.broken.append(("obligation", "coq-props:" + os.path.basename(props_file), out[-2000:]))
+            return
+        ass = parse_assumptions(out)
+        for thm, ax in ass.items():
+            if ax:
+                chk.broken.append(("obligation", f"assumptions:{thm}", "depends on: " + ", ".join(ax)))
+        n = 0
+        for f in (proofs_file, props_file):
+            nocom = strip_comments(open(os.path.join(coq, f)).read())
+            for mm in FORBIDDEN.finditer(nocom):
+                chk.broken.append(("obligation", f"audit:{f}", f"forbidden token {mm.group(0)!r}"))
+            if not sections_balanced(nocom):
+                chk.broken.append(("obligation", f"audit:{f}", "Variable/Hypothesis outside a Section"))
+            n += len(re.findall(r"\b(Qed|Defined)\s*\.", nocom))
+        if chk.build_info is not None:
+            chk.build_info.assumptions.update(ass)
+            chk.build_info.files += [proofs_file, props_file]
+        chk.obligations += n
+        if not any(k == "obligation" and (os.path.basename(proofs_file) in nm or os.path.basename(props_file) in nm) for k, nm, _ in chk.broken):
+            chk.discharged += n
+        chk.notes.append(f"[{prop}] composition with the enumeration loop of C05 checked: {len(ass)} theorems in {props_file} "
+                         "(premises: solver contract of C05)")
+    finally:
+        fcntl.flock(lock, fcntl.LOCK_UN)
+        lock.close()
+
+
